@@ -76,6 +76,10 @@ func (b *evBackend) SendEvent(ctx context.Context, e *gostatsd.Event) error {
 		return err
 	}
 	b.got = append(b.got, ev)
+	if b.r.timeoutsLeft > 0 {
+		b.r.timeoutsLeft--
+		return context.DeadlineExceeded // the event was handed to the backend; that the backend could not send it on is its own failure
+	}
 	return nil
 }
 
@@ -93,9 +97,9 @@ func (c *cache) Peek(s gostatsd.Source) (*gostatsd.Instance, bool) {
 	}
 	return nil, false
 }
-func (c *cache) IpSink() chan<- gostatsd.Source            { return c.ipSink }
+func (c *cache) IpSink() chan<- gostatsd.Source           { return c.ipSink }
 func (c *cache) InfoSource() <-chan gostatsd.InstanceInfo { return c.info }
-func (c *cache) EstimatedTags() int                        { return 2 }
+func (c *cache) EstimatedTags() int                       { return 2 }
 
 type scfg struct {
 	Backends   int
@@ -103,24 +107,26 @@ type scfg struct {
 	Senders    []int // datagrams (one event each) per sender thread
 	Cloud      bool
 	Waiter     bool
+	Timeouts   int `json:",omitempty"` // the first SendEvent calls fail with context.DeadlineExceeded (what an HTTP backend returns when its retries run into the per-event deadline)
 }
 
 func (c scfg) String() string {
-	return fmt.Sprintf("B%d-c%d-s%v-cloud%v-w%v", c.Backends, c.Concurrent, c.Senders, c.Cloud, c.Waiter)
+	return fmt.Sprintf("B%d-c%d-s%v-cloud%v-w%v", c.Backends, c.Concurrent, c.Senders, c.Cloud, c.Waiter) + map[bool]string{true: fmt.Sprintf("-timeouts%d", c.Timeouts)}[c.Timeouts > 0]
 }
 
 type run struct {
-	backs      []*evBackend
-	table      int // 0 unknown, 1 instance, 2 nothing
-	outcome    int
-	maxInFly   int
-	totalBegun int
-	totalDone  int
-	waitBad    string
-	waitRet    bool
-	tableObj   *int
-	logObj     *int
-	sent       int
+	backs        []*evBackend
+	table        int // 0 unknown, 1 instance, 2 nothing
+	outcome      int
+	maxInFly     int
+	totalBegun   int
+	totalDone    int
+	timeoutsLeft int
+	waitBad      string
+	waitRet      bool
+	tableObj     *int
+	logObj       *int
+	sent         int
 }
 
 func eventLine(id int) string {
@@ -135,7 +141,7 @@ func eventLine(id int) string {
 
 func sbody(c scfg, r *run) func(*vsched.Exec) {
 	return func(x *vsched.Exec) {
-		*r = run{tableObj: new(int), logObj: new(int)}
+		*r = run{tableObj: new(int), logObj: new(int), timeoutsLeft: c.Timeouts}
 		ctx, _ := fx.NewClock(context.Background())
 		var backends []gostatsd.Backend
 		for i := 0; i < c.Backends; i++ {
@@ -308,10 +314,12 @@ func scheck(c scfg, r *run, outcomes map[string]struct{}) func(*vsched.Exec, vsc
 
 func sconfigs() []scfg {
 	cs := []scfg{
-		{1, 1, []int{1, 1}, false, true}, {2, 1, []int{1}, false, true}, {2, 2, []int{1}, true, true}, {1, 1, []int{2}, true, true}, {0, 1, []int{1}, false, true},
+		{1, 1, []int{1, 1}, false, true, 0}, {2, 1, []int{1}, false, true, 0}, {2, 2, []int{1}, true, true, 0}, {1, 1, []int{2}, true, true, 0}, {0, 1, []int{1}, false, true, 0},
+		// as many failed sends as there are event slots, then one more event
+		{1, 1, []int{2}, false, true, 1}, {1, 2, []int{3}, false, false, 2},
 	}
 	if vrt.Thorough() {
-		cs = append(cs, scfg{2, 1, []int{2}, false, true}, scfg{2, 2, []int{1, 1}, true, true}, scfg{2, 1, []int{2, 1}, false, true}, scfg{1, 2, []int{2, 2}, true, false})
+		cs = append(cs, scfg{2, 1, []int{2}, false, true, 0}, scfg{2, 2, []int{1, 1}, true, true, 0}, scfg{2, 1, []int{2, 1}, false, true, 0}, scfg{1, 2, []int{2, 2}, true, false, 0})
 	}
 	return cs
 }
